@@ -83,6 +83,16 @@ def gen_oracle_case(ctx, dspecs, backends=("cbc", "glpk"), families=None):
     n = rng.choice([2, 2, 3, 3, 4, 5])
     mx = ORACLE_MAX_UNITS[n]
     fam = rng.choice(families) if families else (rng.choice(["mixeddur", "longoverlap", "dense", "dense"]) if rng.random() < 0.3 else None)
+    if families is None and rng.random() < 0.12:
+        # every annotator has exactly the same list of segments and only the labels disagree (a categorisation task)
+        n = rng.choice([2, 3, 3, 4])
+        k = rng.randint(2, {2: 7, 3: 4, 4: 3}[n])
+        base = cases.gen_segments(rng, rng.choice(["touching", "grid", "dyadic"]), k)
+        base = sorted(set(base))
+        labs = labels or cases.LABELS_SMALL
+        cspec = {"ann": {a: [[s_, e_, rng.choice(labs)] for (s_, e_) in base] for a in cases.ANNOTATOR_NAMES[:n]},
+                 "family": "same-segmentation"}
+        return {"continuum": cspec, "dissim": dspec, "backend": rng.choice(list(backends))}
     if fam == "dense":      # many overlapping units, >= 3 annotators: the integer programme needs branching
         n = rng.choice([3, 4, 4, 5])
         cspec = cases.gen_continuum(rng, n_annot=n, sizes=[ORACLE_MAX_UNITS[n] if n > 3 else 8] * n,
